@@ -329,45 +329,61 @@ Proof.
   rewrite map_map. apply map_ext. intros c. apply copy_ids_shape.
 Qed.
 
-Lemma copy_ids_ok n : forall i, wfb n = true -> Inv (copy_ids i n).
+(* after a copy EVERY child (hidden ones included) carries the id derived from its new parent *)
+Fixpoint ids_allb (n : node) : bool :=
+  match n with
+  | NBase _ _ _ _ => true
+  | NStruct k nm i a ks vis => forallb (fun c => ideqb (nid c) (child_id k i (nname c)) && ids_allb c) ks
+  end.
+
+Lemma ids_all_ok n : ids_allb n = true -> ids_okb n = true.
 Proof.
-  induction n as [nm i0 a d|k nm i0 a ks vis IH] using node_ind2; intros i Hw; [split; reflexivity|].
-  apply wfb_struct in Hw as (Hnd & Hvd & Hincl & Hkids). cbn [copy_ids]. split.
-  - apply wfb_struct. rewrite names_copy. repeat split; try assumption.
-    + intros v Hv; exact Hv.
-    + rewrite Forall_forall in IH, Hkids |- *. intros x Hx. apply in_map_iff in Hx as (c & <- & Hc).
-      apply IH; [assumption|now apply Hkids].
-  - apply ids_struct. rewrite Forall_forall in IH, Hkids |- *. intros x Hx _.
-    apply in_map_iff in Hx as (c & <- & Hc). destruct (copy_ids_shape (child_id k i (nname c)) c) as [E1 E2].
-    rewrite E1, E2. split; [reflexivity|]. apply IH; [assumption|now apply Hkids].
+  induction n as [nm i a d|k nm i a ks vis IH] using node_ind2; [reflexivity|].
+  cbn [ids_allb ids_okb]. rewrite !forallb_forall. intros H c Hc. specialize (H c Hc).
+  apply andb_true_iff in H as [H1 H2]. rewrite Forall_forall in IH.
+  destruct (memn (nname c) vis); [|reflexivity]. rewrite H1. cbn. now apply IH.
 Qed.
+
+Lemma copy_ids_all n : forall i, ids_allb (copy_ids i n) = true.
+Proof.
+  induction n as [nm i0 a d|k nm i0 a ks vis IH] using node_ind2; intros i; [reflexivity|].
+  cbn [copy_ids ids_allb]. apply forallb_forall. intros x Hx. apply in_map_iff in Hx as (c & <- & Hc).
+  destruct (copy_ids_shape (child_id k i (nname c)) c) as [E1 E2]. rewrite E1, E2.
+  apply andb_true_iff; split; [now apply ideqb_eq|]. rewrite Forall_forall in IH. now apply IH.
+Qed.
+
+Lemma copy_ids_wf n : forall i, wfb n = true -> wfb (copy_ids i n) = true.
+Proof.
+  induction n as [nm i0 a d|k nm i0 a ks vis IH] using node_ind2; intros i Hw; [reflexivity|].
+  apply wfb_struct in Hw as (Hnd & Hvd & Hincl & Hkids). cbn [copy_ids].
+  apply wfb_struct. rewrite names_copy. repeat split; try assumption.
+  rewrite Forall_forall in IH, Hkids |- *. intros x Hx. apply in_map_iff in Hx as (c & <- & Hc).
+  apply IH; [assumption|now apply Hkids].
+Qed.
+
+Lemma copy_ids_ok n : forall i, wfb n = true -> Inv (copy_ids i n).
+Proof. intros i Hw. split; [now apply copy_ids_wf|apply ids_all_ok, copy_ids_all]. Qed.
 
 Lemma copy_ok n : wfb n = true -> Inv (copy n) /\ nname (copy n) = nname n /\ nid (copy n) = nid n.
 Proof.
   intros Hw. unfold copy. split; [now apply copy_ids_ok|apply copy_ids_shape].
 Qed.
 
-Lemma copy_all_visible n k nm i a ks vis : copy n = NStruct k nm i a ks vis -> vis = names ks.
-Proof.
-  unfold copy. destruct n as [|k0 nm0 i0 a0 ks0 vis0]; cbn [copy_ids nid]; [discriminate|].
-  intros [= <- <- <- <- <- <-]. symmetry. apply names_copy.
-Qed.
-
 Lemma select_ok n keys s : wfb n = true -> select n keys = Some s -> Inv s /\ nname s = nname n /\ nid s = nid n.
 Proof.
-  intros Hw. unfold select. destruct (copy_ok n Hw) as ([Hwc Hic] & Hcn & Hci).
+  intros Hw. unfold select. destruct (copy_ok n Hw) as ([Hwc _] & Hcn & Hci).
+  pose proof (copy_ids_all n (nid n)) as Hall. fold (copy n) in Hall.
   destruct (copy n) as [|k nm i a ks vis] eqn:Ec; [discriminate|].
   match goal with |- context [if ?c then _ else _] => destruct c eqn:E end; [|discriminate].
   intros [= <-]. apply andb_true_iff in E as [E1 E2].
-  pose proof (copy_all_visible _ _ _ _ _ _ _ Ec) as Hvis.
-  apply wfb_struct in Hwc as (Hnd & Hvd & Hincl & Hkids). rewrite ids_struct in Hic.
+  apply wfb_struct in Hwc as (Hnd & Hvd & Hincl & Hkids).
   split; [split|split; assumption].
   - apply wfb_struct. repeat split; try assumption; [now apply nodupb_NoDup|].
     intros v Hv. rewrite forallb_forall in E1. specialize (E1 v Hv).
     destruct (find_kid v ks) as [c|] eqn:Ef; [|discriminate].
     apply find_kid_In in Ef as [Hc <-]. now apply in_map.
-  - apply ids_struct. rewrite Forall_forall in Hic |- *. intros x Hx _. apply Hic; [assumption|].
-    rewrite Hvis. now apply in_map.
+  - (* every child of a copy has its derived id, whatever subset is made visible *)
+    apply ids_all_ok. exact Hall.
 Qed.
 
 (* ---------------------------------------------------------------- attributes, data *)
